@@ -304,4 +304,347 @@ theorem rtn_resolve_ref (env : Env) (container : String) (inherit : Nat) (existi
       Bool.false_and, Bool.and_false, Bool.false_eq_true, if_false, Bool.true_or, Bool.or_false, Bool.or_self,
       Bool.not_true, if_true, Bool.and_true, Bool.and_self, hc]
 
+/-! ### component events in every mode -/
+
+theorem rtn_ingrRegular (env : Env) (input : Str) (li : Loc (PIngredient α)) (igr0 : Ingredient (ScalableValue α))
+    (s : Col α) (t : Nat) (defn : Ingredient (ScalableValue α)) (defLoc : Loc (PIngredient α)) (rf : List Nat)
+    (b : Bool) (tg : Option RefTarget)
+    (hNEW : igr0.modifiers.contains Modifiers.NEW = false)
+    (htreat : igr0.modifiers.contains Modifiers.REF = true ∨ s.defineMode = .steps ∨ s.duplicateMode = .reference)
+    (hquiet : igr0.modifiers.contains Modifiers.REF = true → s.defineMode ≠ .steps ∧ s.duplicateMode = .new)
+    (hfound : sameNameIdx env (s.ingredients.toList.map (fun x => (x.name, x.modifiers))) igr0.name = some t)
+    (hdefn : s.ingredients[t]? = some defn) (hloc : s.locIngr[t]? = some defLoc)
+    (hrel : defn.relation = ⟨.definition rf b, tg⟩)
+    (hconf : refConflict igr0.modifiers
+      ⟨defn.modifiers.bits &&& (Modifiers.HIDDEN ||| Modifiers.OPT ||| Modifiers.RECIPE)⟩ = 0)
+    (hq : RefChecksQuiet env li igr0.quantity defn b) :
+    ingrRegular env input li igr0 s =
+      (asReference igr0 defn.modifiers t,
+       { s with ingredients := s.ingredients.setIfInBounds t (backlinked defn rf s.ingredients.size b tg) }) := by
+  have hex : (((s.ingredients.toList.map (fun x => (x.name, x.modifiers)))[t]?).map (·.2)).getD Modifiers.empty =
+      defn.modifiers := by
+    simp [hdefn]
+  unfold ingrRegular
+  simp only [bind, StateT.bind, get, getThe, MonadStateOf.get, StateT.get, pure, StateT.pure]
+  rw [rtn_resolve_ref env "ingredient" _ _ igr0.name igr0.modifiers li.span li.val.modifiers.span s t hNEW htreat hquiet
+    hfound (by rw [hex]; exact hconf)]
+  have hchk := rtf_ingrRefChecks env input li (asReference igr0 defn.modifiers t) t defn defLoc rf b tg s hrel hq
+  unfold asReference refMods at hchk
+  simp only [bind, StateT.bind, get, getThe, MonadStateOf.get, StateT.get, pure, StateT.pure, hex, hdefn, hloc, hchk,
+    ingrSetReferencedFrom, hrel, modify, modifyGet, MonadStateOf.modifyGet, StateT.modifyGet]
+  rfl
+
+theorem rtn_ingrBuild (env : Env) (input : Str) (li : Loc (PIngredient α)) (igr0 : Ingredient (ScalableValue α))
+    (s : Col α) (t : Nat) (defn : Ingredient (ScalableValue α)) (defLoc : Loc (PIngredient α)) (rf : List Nat)
+    (b : Bool) (tg : Option RefTarget) (hinter : li.val.inter = none)
+    (hNEW : igr0.modifiers.contains Modifiers.NEW = false)
+    (htreat : igr0.modifiers.contains Modifiers.REF = true ∨ s.defineMode = .steps ∨ s.duplicateMode = .reference)
+    (hquiet : igr0.modifiers.contains Modifiers.REF = true → s.defineMode ≠ .steps ∧ s.duplicateMode = .new)
+    (hfound : sameNameIdx env (s.ingredients.toList.map (fun x => (x.name, x.modifiers))) igr0.name = some t)
+    (hdefn : s.ingredients[t]? = some defn) (hloc : s.locIngr[t]? = some defLoc)
+    (hrel : defn.relation = ⟨.definition rf b, tg⟩)
+    (hconf : refConflict igr0.modifiers
+      ⟨defn.modifiers.bits &&& (Modifiers.HIDDEN ||| Modifiers.OPT ||| Modifiers.RECIPE)⟩ = 0)
+    (hq : RefChecksQuiet env li igr0.quantity defn b) :
+    ingrBuild env input li igr0 s =
+      (s.ingredients.size,
+       { s with locIngr := s.locIngr.push li,
+                ingredients := (s.ingredients.setIfInBounds t (backlinked defn rf s.ingredients.size b tg)).push
+                  (asReference igr0 defn.modifiers t) }) := by
+  unfold ingrBuild
+  simp only [hinter, bind, StateT.bind]
+  rw [rtn_ingrRegular env input li igr0 s t defn defLoc rf b tg hNEW htreat hquiet hfound hdefn hloc hrel hconf hq]
+  simp only [get, getThe, MonadStateOf.get, StateT.get, pure, StateT.pure, modify, modifyGet, MonadStateOf.modifyGet,
+    StateT.modifyGet, Array.size_push, Array.size_setIfInBounds, Nat.add_sub_cancel]
+
+/-- **An ingredient that becomes a reference, in every mode** (inside a step block): written with `&` in the
+    default modes, or without `&` in steps mode or in duplicate mode `reference` (an IMPLICIT reference), never
+    with `+`; its name has an earlier non-REF definition, the last one at `t`; the checks of a reference are
+    quiet.  The new table entry is the reference to `t` with the written and the inherited modifiers and REF
+    (`asReference`), the definition lists the new index back, the step gets the item, nothing is reported. -/
+theorem rtn_proc_ingredient_ref (env : Env) (input : Str) (li : Loc (PIngredient α)) (s : Col α) (items : List Item)
+    (t : Nat) (defn : Ingredient (ScalableValue α)) (defLoc : Loc (PIngredient α)) (rf : List Nat) (b : Bool)
+    (tg : Option RefTarget) (hb : s.block = some (.step items))
+    (hinter : li.val.inter = none) (hlock : ∀ q, li.val.quantity = some q → lockOK q.val.value true)
+    (hNEW : li.val.modifiers.val.contains Modifiers.NEW = false)
+    (htreat : li.val.modifiers.val.contains Modifiers.REF = true ∨ s.defineMode = .steps ∨
+      s.duplicateMode = .reference)
+    (hquiet : li.val.modifiers.val.contains Modifiers.REF = true → s.defineMode ≠ .steps ∧ s.duplicateMode = .new)
+    (hfound : sameNameIdx env (s.ingredients.toList.map (fun x => (x.name, x.modifiers))) (ingrOf env li).name = some t)
+    (hdefn : s.ingredients[t]? = some defn) (hloc : s.locIngr[t]? = some defLoc)
+    (hrel : defn.relation = ⟨.definition rf b, tg⟩)
+    (hconf : refConflict li.val.modifiers.val
+      ⟨defn.modifiers.bits &&& (Modifiers.HIDDEN ||| Modifiers.OPT ||| Modifiers.RECIPE)⟩ = 0)
+    (hq : RefChecksQuiet env li (ingrOf env li).quantity defn b) :
+    (processEvent env input (.ingredient li) s).2 =
+      { s with
+        locIngr := s.locIngr.push li,
+        ingredients := (s.ingredients.setIfInBounds t (backlinked defn rf s.ingredients.size b tg)).push
+          (asReference (ingrOf env li) defn.modifiers t),
+        block := some (.step (items ++ [.ingredient s.ingredients.size])) } := by
+  have e : processEvent env input (.ingredient li) s = inBlockComponent env input (.ingredient li) s := rfl
+  rw [e, rta_inBlock_step env input _ s items hb]
+  have hA : ingredientA env input li s =
+      (s.ingredients.size,
+       { s with locIngr := s.locIngr.push li,
+                ingredients := (s.ingredients.setIfInBounds t (backlinked defn rf s.ingredients.size b tg)).push
+                  (asReference (ingrOf env li) defn.modifiers t) }) := by
+    unfold ingredientA
+    simp only [bind, StateT.bind, rta_optQuantityOf env _ true s hlock, get, getThe, MonadStateOf.get, StateT.get, pure,
+      StateT.pure]
+    refine (rtn_ingrBuild env input li _ s t defn defLoc rf b tg hinter ?_ ?_ ?_ ?_ hdefn hloc hrel ?_ ?_).trans ?_
+    · exact hNEW
+    · exact htreat
+    · exact hquiet
+    · exact hfound
+    · exact hconf
+    · exact hq
+    · rfl
+  simp only [inStepComponent, bind, StateT.bind, hA]
+  rw [rta_pushItem _ _ items (by exact hb)]
+
+theorem rtn_ingrBuild_def (env : Env) (input : Str) (li : Loc (PIngredient α)) (igr0 : Ingredient (ScalableValue α))
+    (s : Col α) (hinter : li.val.inter = none)
+    (hREF : igr0.modifiers.contains Modifiers.REF = false)
+    (hq : (igr0.modifiers.contains Modifiers.NEW = true ∧
+            (s.defineMode = .steps ∨ (s.duplicateMode = .reference ∧
+              (sameNameIdx env (s.ingredients.toList.map (fun x => (x.name, x.modifiers))) igr0.name).isSome = true))) ∨
+          (igr0.modifiers.contains Modifiers.NEW = false ∧ s.defineMode ≠ .steps ∧
+            (s.duplicateMode = .new ∨
+              sameNameIdx env (s.ingredients.toList.map (fun x => (x.name, x.modifiers))) igr0.name = none))) :
+    ingrBuild env input li igr0 s =
+      (s.ingredients.size, { s with locIngr := s.locIngr.push li, ingredients := s.ingredients.push igr0 }) := by
+  unfold ingrBuild
+  simp only [hinter, bind, StateT.bind]
+  unfold ingrRegular
+  simp only [bind, StateT.bind, get, getThe, MonadStateOf.get, StateT.get, pure, StateT.pure,
+    rtn_resolve_def env "ingredient" _ _ igr0.name igr0.modifiers li.span li.val.modifiers.span s hREF hq, modify, modifyGet,
+    MonadStateOf.modifyGet, StateT.modifyGet, Array.size_push, Nat.add_sub_cancel]
+
+/-- **An ingredient that stays a definition, in every mode but components** (inside a step block): no `&`;
+    either `+` where the mode would have made it a reference, or no `+` where the mode leaves it alone
+    (`rtn_resolve_def`).  It is appended as written (with `+` among its modifiers if written), `defined_in_step`. -/
+theorem rtn_proc_ingredient_def (env : Env) (input : Str) (li : Loc (PIngredient α)) (s : Col α) (items : List Item)
+    (hb : s.block = some (.step items)) (hne : s.defineMode ≠ .components)
+    (hinter : li.val.inter = none) (hlock : ∀ q, li.val.quantity = some q → lockOK q.val.value true)
+    (hREF : li.val.modifiers.val.contains Modifiers.REF = false)
+    (hq : (li.val.modifiers.val.contains Modifiers.NEW = true ∧
+            (s.defineMode = .steps ∨ (s.duplicateMode = .reference ∧
+              (sameNameIdx env (s.ingredients.toList.map (fun x => (x.name, x.modifiers))) (ingrOf env li).name).isSome
+                = true))) ∨
+          (li.val.modifiers.val.contains Modifiers.NEW = false ∧ s.defineMode ≠ .steps ∧
+            (s.duplicateMode = .new ∨
+              sameNameIdx env (s.ingredients.toList.map (fun x => (x.name, x.modifiers))) (ingrOf env li).name = none))) :
+    (processEvent env input (.ingredient li) s).2 =
+      { s with locIngr := s.locIngr.push li, ingredients := s.ingredients.push (ingrOf env li),
+               block := some (.step (items ++ [.ingredient s.ingredients.size])) } := by
+  have e : processEvent env input (.ingredient li) s = inBlockComponent env input (.ingredient li) s := rfl
+  rw [e, rta_inBlock_step env input _ s items hb]
+  have hne' : (s.defineMode != DefineMode.components) = true := by
+    cases hdm : s.defineMode <;> first | rfl | exact absurd hdm hne
+  have hA : ingredientA env input li s =
+      (s.ingredients.size, { s with locIngr := s.locIngr.push li, ingredients := s.ingredients.push (ingrOf env li) }) := by
+    unfold ingredientA
+    simp only [bind, StateT.bind, rta_optQuantityOf env _ true s hlock, get, getThe, MonadStateOf.get, StateT.get, pure,
+      StateT.pure, hne']
+    refine (rtn_ingrBuild_def env input li _ s hinter ?_ ?_).trans ?_
+    · exact hREF
+    · exact hq
+    · rfl
+  simp only [inStepComponent, bind, StateT.bind, hA]
+  rw [rta_pushItem _ { s with locIngr := s.locIngr.push li, ingredients := s.ingredients.push (ingrOf env li) } items hb]
+
+/-- an ingredient with a resolvable intermediate reference, in every mode but components: `resolve_reference`
+    is not consulted at all, the modes play no part -/
+theorem rtn_proc_ingredient_inter (env : Env) (input : Str) (li : Loc (PIngredient α)) (s : Col α) (items : List Item)
+    (d : Loc InterData) (rel : IngredientRelation)
+    (hne : s.defineMode ≠ .components) (hb : s.block = some (.step items)) (hinter : li.val.inter = some d)
+    (hlock : ∀ q, li.val.quantity = some q → lockOK q.val.value true)
+    (hREF : li.val.modifiers.val.contains Modifiers.REF = true)
+    (hvalid : li.val.modifiers.val.bits &&& (Modifiers.RECIPE ||| Modifiers.HIDDEN ||| Modifiers.NEW) = 0)
+    (hnn : 0 ≤ d.val.val) (ht : interRefTarget s.cur.content s.sections.length d.val = .ok rel) :
+    (processEvent env input (.ingredient li) s).2 =
+      { s with
+        locIngr := s.locIngr.push li,
+        ingredients := s.ingredients.push { ingrOf env li with relation := rel },
+        block := some (.step (items ++ [.ingredient s.ingredients.size])) } := by
+  have e : processEvent env input (.ingredient li) s = inBlockComponent env input (.ingredient li) s := rfl
+  rw [e, rta_inBlock_step env input _ s items hb]
+  have hne' : (s.defineMode != DefineMode.components) = true := by
+    cases hdm : s.defineMode <;> first | rfl | exact absurd hdm hne
+  have hA : ingredientA env input li s =
+      (s.ingredients.size,
+       { s with locIngr := s.locIngr.push li,
+                ingredients := s.ingredients.push { ingrOf env li with relation := rel } }) := by
+    unfold ingredientA
+    simp only [bind, StateT.bind, rta_optQuantityOf env _ true s hlock, get, getThe, MonadStateOf.get, StateT.get, pure,
+      StateT.pure, hne']
+    unfold ingrBuild
+    simp only [hinter, bind, StateT.bind]
+    rw [rtax_ingrInter li.val _ d s rel hREF hvalid hnn ht]
+    simp only [get, getThe, MonadStateOf.get, StateT.get, pure, StateT.pure, modify, modifyGet, MonadStateOf.modifyGet,
+      StateT.modifyGet, Array.size_push, Nat.add_sub_cancel]
+    rfl
+  simp only [inStepComponent, bind, StateT.bind, hA]
+  rw [rta_pushItem _ _ items (by exact hb)]
+
+theorem rtn_cwResolve (env : Env) (input : Str) (lc : Loc (PCookware α)) (cw0 : Cookware (ScalableValue α))
+    (s : Col α) (t : Nat) (defn : Cookware (ScalableValue α)) (defLoc : Loc (PCookware α)) (rf : List Nat) (b : Bool)
+    (hNEW : cw0.modifiers.contains Modifiers.NEW = false)
+    (htreat : cw0.modifiers.contains Modifiers.REF = true ∨ s.defineMode = .steps ∨ s.duplicateMode = .reference)
+    (hquiet : cw0.modifiers.contains Modifiers.REF = true → s.defineMode ≠ .steps ∧ s.duplicateMode = .new)
+    (hfound : sameNameIdx env (s.cookware.toList.map (fun x => (x.name, x.modifiers))) cw0.name = some t)
+    (hdefn : s.cookware[t]? = some defn) (hloc : s.locCw[t]? = some defLoc)
+    (hrel : defn.relation = .definition rf b)
+    (hconf : refConflict cw0.modifiers ⟨defn.modifiers.bits &&& (Modifiers.HIDDEN ||| Modifiers.OPT)⟩ = 0)
+    (hq : CwRefChecksQuiet lc cw0.quantity defn b) :
+    cwResolve env input lc cw0 s =
+      (cwAsReference cw0 defn.modifiers t,
+       { s with cookware := s.cookware.setIfInBounds t (cwBacklinked defn rf s.cookware.size b) }) := by
+  have hex : (((s.cookware.toList.map (fun x => (x.name, x.modifiers)))[t]?).map (·.2)).getD Modifiers.empty =
+      defn.modifiers := by
+    simp [hdefn]
+  unfold cwResolve
+  simp only [bind, StateT.bind, get, getThe, MonadStateOf.get, StateT.get, pure, StateT.pure]
+  rw [rtn_resolve_ref env "cookware item" _ _ cw0.name cw0.modifiers lc.span lc.val.modifiers.span s t hNEW htreat hquiet
+    hfound (by rw [hex]; exact hconf)]
+  have hchk := rtf_cwRefChecks input lc (cwAsReference cw0 defn.modifiers t) defn defLoc rf b s hrel hq
+  unfold cwAsReference cwRefMods at hchk
+  simp only [bind, StateT.bind, get, getThe, MonadStateOf.get, StateT.get, pure, StateT.pure, hex, hdefn, hloc, hchk,
+    cwSetReferencedFrom, hrel, modify, modifyGet, MonadStateOf.modifyGet, StateT.modifyGet]
+  rfl
+
+theorem rtn_cwBuild (env : Env) (input : Str) (lc : Loc (PCookware α)) (cw0 : Cookware (ScalableValue α))
+    (s : Col α) (t : Nat) (defn : Cookware (ScalableValue α)) (defLoc : Loc (PCookware α)) (rf : List Nat) (b : Bool)
+    (hNEW : cw0.modifiers.contains Modifiers.NEW = false)
+    (htreat : cw0.modifiers.contains Modifiers.REF = true ∨ s.defineMode = .steps ∨ s.duplicateMode = .reference)
+    (hquiet : cw0.modifiers.contains Modifiers.REF = true → s.defineMode ≠ .steps ∧ s.duplicateMode = .new)
+    (hfound : sameNameIdx env (s.cookware.toList.map (fun x => (x.name, x.modifiers))) cw0.name = some t)
+    (hdefn : s.cookware[t]? = some defn) (hloc : s.locCw[t]? = some defLoc)
+    (hrel : defn.relation = .definition rf b)
+    (hconf : refConflict cw0.modifiers ⟨defn.modifiers.bits &&& (Modifiers.HIDDEN ||| Modifiers.OPT)⟩ = 0)
+    (hq : CwRefChecksQuiet lc cw0.quantity defn b) :
+    cwBuild env input lc cw0 s =
+      (s.cookware.size,
+       { s with locCw := s.locCw.push lc,
+                cookware := (s.cookware.setIfInBounds t (cwBacklinked defn rf s.cookware.size b)).push
+                  (cwAsReference cw0 defn.modifiers t) }) := by
+  unfold cwBuild
+  simp only [bind, StateT.bind]
+  rw [rtn_cwResolve env input lc cw0 s t defn defLoc rf b hNEW htreat hquiet hfound hdefn hloc hrel hconf hq]
+  simp only [get, getThe, MonadStateOf.get, StateT.get, pure, StateT.pure, modify, modifyGet, MonadStateOf.modifyGet,
+    StateT.modifyGet, Array.size_push, Array.size_setIfInBounds, Nat.add_sub_cancel]
+
+/-- **A cookware item that becomes a reference, in every mode** (see `rtn_proc_ingredient_ref`) -/
+theorem rtn_proc_cookware_ref (env : Env) (input : Str) (lc : Loc (PCookware α)) (s : Col α) (items : List Item)
+    (t : Nat) (defn : Cookware (ScalableValue α)) (defLoc : Loc (PCookware α)) (rf : List Nat) (b : Bool)
+    (hb : s.block = some (.step items))
+    (hlock : ∀ q, lc.val.quantity = some q → lockOK q.val false)
+    (hNEW : lc.val.modifiers.val.contains Modifiers.NEW = false)
+    (htreat : lc.val.modifiers.val.contains Modifiers.REF = true ∨ s.defineMode = .steps ∨
+      s.duplicateMode = .reference)
+    (hquiet : lc.val.modifiers.val.contains Modifiers.REF = true → s.defineMode ≠ .steps ∧ s.duplicateMode = .new)
+    (hfound : sameNameIdx env (s.cookware.toList.map (fun x => (x.name, x.modifiers))) (cwOf env lc).name = some t)
+    (hdefn : s.cookware[t]? = some defn) (hloc : s.locCw[t]? = some defLoc)
+    (hrel : defn.relation = .definition rf b)
+    (hconf : refConflict lc.val.modifiers.val ⟨defn.modifiers.bits &&& (Modifiers.HIDDEN ||| Modifiers.OPT)⟩ = 0)
+    (hq : CwRefChecksQuiet lc (cwOf env lc).quantity defn b) :
+    (processEvent env input (.cookware lc) s).2 =
+      { s with
+        locCw := s.locCw.push lc,
+        cookware := (s.cookware.setIfInBounds t (cwBacklinked defn rf s.cookware.size b)).push
+          (cwAsReference (cwOf env lc) defn.modifiers t),
+        block := some (.step (items ++ [.cookware s.cookware.size])) } := by
+  have e : processEvent env input (.cookware lc) s = inBlockComponent env input (.cookware lc) s := rfl
+  rw [e, rta_inBlock_step env input _ s items hb]
+  have hA : cookwareA env input lc s =
+      (s.cookware.size,
+       { s with locCw := s.locCw.push lc,
+                cookware := (s.cookware.setIfInBounds t (cwBacklinked defn rf s.cookware.size b)).push
+                  (cwAsReference (cwOf env lc) defn.modifiers t) }) := by
+    unfold cookwareA
+    simp only [bind, StateT.bind, rta_optValueOf env _ s hlock, get, getThe, MonadStateOf.get, StateT.get, pure,
+      StateT.pure]
+    refine (rtn_cwBuild env input lc _ s t defn defLoc rf b ?_ ?_ ?_ ?_ hdefn hloc hrel ?_ ?_).trans ?_
+    · exact hNEW
+    · exact htreat
+    · exact hquiet
+    · exact hfound
+    · exact hconf
+    · exact hq
+    · rfl
+  simp only [inStepComponent, bind, StateT.bind, hA]
+  rw [rta_pushItem _ _ items (by exact hb)]
+
+theorem rtn_cwBuild_def (env : Env) (input : Str) (lc : Loc (PCookware α)) (cw0 : Cookware (ScalableValue α))
+    (s : Col α) (hREF : cw0.modifiers.contains Modifiers.REF = false)
+    (hq : (cw0.modifiers.contains Modifiers.NEW = true ∧
+            (s.defineMode = .steps ∨ (s.duplicateMode = .reference ∧
+              (sameNameIdx env (s.cookware.toList.map (fun x => (x.name, x.modifiers))) cw0.name).isSome = true))) ∨
+          (cw0.modifiers.contains Modifiers.NEW = false ∧ s.defineMode ≠ .steps ∧
+            (s.duplicateMode = .new ∨
+              sameNameIdx env (s.cookware.toList.map (fun x => (x.name, x.modifiers))) cw0.name = none))) :
+    cwBuild env input lc cw0 s =
+      (s.cookware.size, { s with locCw := s.locCw.push lc, cookware := s.cookware.push cw0 }) := by
+  unfold cwBuild
+  simp only [bind, StateT.bind]
+  unfold cwResolve
+  simp only [bind, StateT.bind, get, getThe, MonadStateOf.get, StateT.get, pure, StateT.pure,
+    rtn_resolve_def env "cookware item" _ _ cw0.name cw0.modifiers lc.span lc.val.modifiers.span s hREF hq, modify,
+    modifyGet, MonadStateOf.modifyGet, StateT.modifyGet, Array.size_push, Nat.add_sub_cancel]
+
+/-- **A cookware item that stays a definition, in every mode but components** (see `rtn_proc_ingredient_def`) -/
+theorem rtn_proc_cookware_def (env : Env) (input : Str) (lc : Loc (PCookware α)) (s : Col α) (items : List Item)
+    (hb : s.block = some (.step items)) (hne : s.defineMode ≠ .components)
+    (hlock : ∀ q, lc.val.quantity = some q → lockOK q.val false)
+    (hREF : lc.val.modifiers.val.contains Modifiers.REF = false)
+    (hq : (lc.val.modifiers.val.contains Modifiers.NEW = true ∧
+            (s.defineMode = .steps ∨ (s.duplicateMode = .reference ∧
+              (sameNameIdx env (s.cookware.toList.map (fun x => (x.name, x.modifiers))) (cwOf env lc).name).isSome
+                = true))) ∨
+          (lc.val.modifiers.val.contains Modifiers.NEW = false ∧ s.defineMode ≠ .steps ∧
+            (s.duplicateMode = .new ∨
+              sameNameIdx env (s.cookware.toList.map (fun x => (x.name, x.modifiers))) (cwOf env lc).name = none))) :
+    (processEvent env input (.cookware lc) s).2 =
+      { s with locCw := s.locCw.push lc, cookware := s.cookware.push (cwOf env lc),
+               block := some (.step (items ++ [.cookware s.cookware.size])) } := by
+  have e : processEvent env input (.cookware lc) s = inBlockComponent env input (.cookware lc) s := rfl
+  rw [e, rta_inBlock_step env input _ s items hb]
+  have hne' : (s.defineMode != DefineMode.components) = true := by
+    cases hdm : s.defineMode <;> first | rfl | exact absurd hdm hne
+  have hA : cookwareA env input lc s =
+      (s.cookware.size, { s with locCw := s.locCw.push lc, cookware := s.cookware.push (cwOf env lc) }) := by
+    unfold cookwareA
+    simp only [bind, StateT.bind, rta_optValueOf env _ s hlock, get, getThe, MonadStateOf.get, StateT.get, pure,
+      StateT.pure, hne']
+    refine (rtn_cwBuild_def env input lc _ s ?_ ?_).trans ?_
+    · exact hREF
+    · exact hq
+    · rfl
+  simp only [inStepComponent, bind, StateT.bind, hA]
+  rw [rta_pushItem _ { s with locCw := s.locCw.push lc, cookware := s.cookware.push (cwOf env lc) } items hb]
+
+/-- a text inside a step block in every mode but components (`rts_proc_text` has the default mode only) -/
+theorem rtn_proc_text (env : Env) (input : Str) (t : Text) (s : Col α) (items : List Item)
+    (hinl : TextInlOK (α := α) env t) (hne : s.defineMode ≠ .components) (hb : s.block = some (.step items)) :
+    (processEvent env input (.text t) s).2 = { s with block := some (.step (items ++ [.text t.text])) } := by
+  have hne' : (s.defineMode == DefineMode.components) = false := by
+    cases hdm : s.defineMode <;> first | rfl | exact absurd hdm hne
+  have e : processEvent env input (.text t) s = inStepText env t s := rfl
+  rw [e]
+  unfold inStepText
+  simp only [bind, StateT.bind, get, getThe, MonadStateOf.get, StateT.get, pure, StateT.pure, hb]
+  unfold inStepTextStep
+  by_cases hext : env.ext.has Gen.EXT_INLINE_QUANTITIES = true
+  · obtain ⟨hnn, hnone⟩ := hinl hext
+    have hloop : inlineLoop (α := α) env (t.text.length + 1) t.text items s.inlineQ = (items ++ [.text t.text], s.inlineQ) := by
+      unfold inlineLoop
+      simp only [hnone]
+      have : t.text.isEmpty = false := by cases ht : t.text <;> simp_all
+      simp [this]
+    simp [bind, StateT.bind, get, getThe, MonadStateOf.get, StateT.get, pure, StateT.pure, hne', hext, hloop, modify,
+      modifyGet, MonadStateOf.modifyGet, StateT.modifyGet]
+  · simp [bind, StateT.bind, get, getThe, MonadStateOf.get, StateT.get, pure, StateT.pure, hne', hext, modify,
+      modifyGet, MonadStateOf.modifyGet, StateT.modifyGet]
+
 end Cook
